@@ -1,5 +1,6 @@
 import SamVerif.Lemmas.Useful
 import SamVerif.Lemmas.UsefulTerm
+import SamVerif.Lemmas.UsefulNorm
 /-!
 # C07 — Exhaustiveness and usefulness analysis of patterns is exact
 
@@ -675,6 +676,34 @@ theorem match_exact (sig : Sig) (cx : Cx) (hcx : CxOk sig cx) (hnd : SigNodup si
   | some res =>
     exact ⟨n, res, fun m hm => by rw [heq m hm, hr],
       match_exhaustive_iff sig cx hcx hnd hinh n arms t res ha hr⟩
+
+/-! ### From source patterns: no typing hypothesis left
+
+`check_matching_pattern` (model: `normalize`) turns *any* source pattern — well-formed or not — into
+an abstract pattern that is well-typed for the scrutinee type (`normalize_typed`), so the exactness
+theorems apply to every `match` / `let` / `if let` the checker analyses. -/
+
+/-- `check_match` / `check_declaration_statement` (main_checker.rs:969-1010, 1520-1545). -/
+theorem checker_match_exact (sig : Sig) (cx : Cx) (hcx : CxOk sig cx) (hnd : SigNodup sig)
+    (hinh : Inhabited' sig) (srcArms : List SPat) (t : Nat) :
+    let arms := srcArms.map (fun p => (normalize sig true p (some t)).pat)
+    ∃ n res, (∀ m, n ≤ m → incompleteCounterexampleF cx m arms = some res) ∧
+      (res = none ↔ ∀ v, hasTy sig v t = true → ∃ a ∈ arms, pmatch a v = true) ∧
+      (∀ d, res = some d → patTy sig d t = true ∧ (∃ v, hasTy sig v t = true ∧ pmatch d v = true) ∧
+        ∀ v, hasTy sig v t = true → pmatch d v = true → ∀ a ∈ arms, pmatch a v = false) := by
+  intro arms
+  apply match_exact sig cx hcx hnd hinh arms t
+  intro a ha
+  obtain ⟨p, _, rfl⟩ := List.mem_map.mp ha
+  exact normalize_typed sig true p (some t)
+
+/-- `check_if_else` with a guard (main_checker.rs:936-948). -/
+theorem checker_iflet_exact (sig : Sig) (cx : Cx) (hcx : CxOk sig cx) (hinh : Inhabited' sig)
+    (src : SPat) (t : Nat) :
+    let p := (normalize sig false src (some t)).pat
+    ∃ n u, (∀ m, n ≤ m → isAdditionalPatternUsefulF cx m [p] .wild = some u) ∧
+      (u = false ↔ ∀ v, hasTy sig v t = true → pmatch p v = true) :=
+  iflet_exact sig cx hcx hinh _ t (normalize_typed sig false src (some t))
 
 /-
 Full-strength statement without the side condition `okPats q` (no `nothing()` = `Or([])` inside the
